@@ -33,8 +33,8 @@ func c16CopyOnePath(chunked, shortWrite bool, failRead, failWrite int, which int
 	calls := vp.Bound("readcalls", 4, 6)
 	if chunked {
 		// symbolic piece boundaries make every byte an ite chain: smaller bounds
-		max = vp.Bound("filelen.chunked", 6, 10)
-		calls = vp.Bound("readcalls.chunked", 4, 6)
+		max = vp.Bound("filelen.chunked", 6, 8)
+		calls = vp.Bound("readcalls.chunked", 4, 5)
 	}
 	if shortWrite {
 		// every split of every piece is a separate path: keep the product small
@@ -123,7 +123,8 @@ func VP_C16_copy_one_big() {
 	sf := c16BigFile("f", "src", max)
 	S := c16NewFS("S", c16Dir(".", sf))
 	D := c16NewFS("D", c16Dir("."))
-	S.chunked = vp.Thorough()
+	S.chunked = vp.Thorough() // thorough: arbitrary piece sizes (short reads in the middle of the file), at most 5 read calls
+	S.maxCall = 5
 	infoSize := vp.I64("info.size")
 	vp.Assume(infoSize > 64<<20)
 	info := c16SizeInfo{c16Info{sf}, infoSize}
